@@ -211,3 +211,66 @@ Proof.
     vm_compute in E. inversion E; subst u. vm_compute in H1. inversion H1. reflexivity.
 Qed.
 Print Assumptions C03_fixed_point_userinfo_example.
+
+(** REACHABLE BY MODIFIER CHAINS.  The canonical-value invariant is preserved by with_port,
+    with_user, with_password, with_fragment and with_query(str) with arbitrary texts
+    ([C03_modifiers_keep_canonical]); hence for every accepted input of the class above and
+    EVERY chain of these modifiers (any length, any argument texts, whenever each step
+    succeeds) the string form of the result is accepted again, prints as itself and reports
+    the same parts.  The other modifiers (paths, names, hosts, schemes, mapping-valued query
+    arguments) are covered by the two-stage re-parse predicate on the implementation. *)
+From Coq Require Import ZArith.
+From Yarl Require Import Proofs.CanonValueMods.
+Theorem C03_modifiers_keep_canonical : forall (B : backend) (ms : list cmod) (u : url) ru rp h pt (u' : url),
+  canon_value B u ru rp h pt -> Forall valid_mod ms -> apply_mods B u ms = Ok u' ->
+  exists ru' rp' pt', canon_value B u' ru' rp' h pt'.
+Proof. exact mods_canonical. Qed.
+Print Assumptions C03_modifiers_keep_canonical.
+Theorem C03_modifier_chains_fixed_point : forall (O : oracles) (B : backend) (s : str) (u : url) (ms : list cmod) (u' : url),
+  valid_str s -> encode_url O B s = Ok u ->
+  (let '(_, nl0, _, _, _) := rfc_split (spec_clean s) in
+   exists us pw h0 pt, split_netloc nl0 = Ok (us, pw, Some h0, pt) /\ plain_name h0) ->
+  (forall m, u_eager u = Some m -> m_user m <> Some []) ->
+  Forall valid_mod ms -> apply_mods B u ms = Ok u' ->
+  exists s' u2 m m2,
+    url_str B u' = Ok s' /\ encode_url O B s' = Ok u2 /\ url_str B u2 = Ok s'
+    /\ netloc_parts u' = Ok m /\ netloc_parts u2 = Ok m2
+    /\ u_scheme u2 = u_scheme u' /\ m_user m2 = m_user m /\ m_password m2 = m_password m /\ m_host m2 = m_host m
+    /\ port u2 = port u'
+    /\ u_path u2 = printed_path u' /\ raw_path u2 = raw_path u'
+    /\ u_query u2 = u_query u' /\ u_fragment u2 = u_fragment u'.
+Proof. exact chain_fixed_point. Qed.
+Print Assumptions C03_modifier_chains_fixed_point.
+(** non-vacuity: the sample above, then with_port(80), with_user("a b"), with_password("p@:"),
+    with_query("x y=%41"), with_fragment("é") *)
+Example C03_chain_example :
+  exists u u' s' u2, encode_url no_oracles BPy c03_sample2 = Ok u
+    /\ apply_mods BPy u [MPort 80%Z; MUser [97;32;98]%N; MPassword [112;64;58]%N; MQuery [120;32;121;61;37;52;49]%N; MFragment [233]%N] = Ok u'
+    /\ url_str BPy u' = Ok s' /\ encode_url no_oracles BPy s' = Ok u2 /\ url_str BPy u2 = Ok s'
+    /\ s' = [104;116;116;112;58;47;47;97;37;50;48;98;58;112;37;52;48;37;51;65;64;101;120;97;109;112;108;101;46;99;111;109;
+             47;98;63;120;43;121;61;37;50;53;52;49;35;37;67;51;37;65;57]%N.
+Proof.
+  destruct (encode_url no_oracles BPy c03_sample2) as [u|e] eqn:E; [|vm_compute in E; discriminate].
+  assert (Hv : valid_str c03_sample2) by (unfold valid_str, c03_sample2; repeat constructor; discriminate).
+  destruct (apply_mods BPy u [MPort 80%Z; MUser [97;32;98]%N; MPassword [112;64;58]%N; MQuery [120;32;121;61;37;52;49]%N; MFragment [233]%N]) as [u'|e] eqn:A;
+    [|vm_compute in E; inversion E; subst u; vm_compute in A; discriminate].
+  destruct (C03_modifier_chains_fixed_point no_oracles BPy c03_sample2 u [MPort 80%Z; MUser [97;32;98]%N; MPassword [112;64;58]%N; MQuery [120;32;121;61;37;52;49]%N; MFragment [233]%N] u' Hv E) as (s' & u2 & m & m2 & H1 & H2 & H3 & _).
+  - assert (E0 : rfc_split (spec_clean c03_sample2)
+                 = ([104;116;116;112],
+                    [85;115;37;55;101;114;58;112;37;52;48;119;37;50;102;64;69;120;97;109;112;108;101;46;67;79;77;58;56;48],
+                    [47;97;47;46;46;47;98], [120;32;121], [102])%N)
+      by (vm_compute; reflexivity).
+    rewrite E0. exists (Some [85;115;37;55;101;114]%N), (Some [112;37;52;48;119;37;50;102]%N), [69;120;97;109;112;108;101;46;67;79;77]%N, (Some 80%N).
+    split; [vm_compute; reflexivity|]. unfold plain_name.
+    split; [discriminate|]. split; [vm_compute; reflexivity|]. split; [vm_compute; reflexivity|].
+    split; [vm_compute; reflexivity|]. split; [vm_compute; reflexivity|]. split; [vm_compute; reflexivity|].
+    split.
+    + intros l Q. assert (l = 77%N) by (vm_compute in Q; congruence). subst l. vm_compute. reflexivity.
+    + unfold visible. repeat (constructor; [reflexivity|]). constructor.
+  - vm_compute in E. inversion E. cbn. intros m Hm. inversion Hm. cbn. discriminate.
+  - repeat constructor; unfold valid_str; repeat constructor; discriminate.
+  - exact A.
+  - exists u, u', s', u2. repeat split; try assumption.
+    vm_compute in E. inversion E; subst u. vm_compute in A. inversion A; subst u'. vm_compute in H1. inversion H1. reflexivity.
+Qed.
+Print Assumptions C03_chain_example.
